@@ -60,6 +60,7 @@ func TestC04(t *testing.T) {
 		pr   imps.Profile
 	}{
 		{"nullrefs", imps.Profile{MaxPaths: 8, Std: true, Anon: true, NullRefs: true, Dots: 1}},
+		{"cgo", imps.Profile{MaxPaths: 3, Std: true, Cgo: true, Anon: true, NullRefs: true}},
 		{"bighints", imps.Profile{MaxPaths: 6, Std: true, Anon: true, NullRefs: true, BigHints: true}},
 		{"anon", imps.Profile{MaxPaths: 10, Std: true, Cgo: true, Anon: true, Compete: true, NullRefs: true, LocalCtor: true}},
 	}
